@@ -625,6 +625,39 @@ def Ctx.createEventAllowed (_a : Ctx) (e : Event) : R Unit := do
   let sender ← resolveUser e.sender
   checkCreateEvent e sender
 
+/-! ### The sender lookup with ANY `spec.UserIDForSender` (defect P2 of the second audit round)
+
+A querier answers a user ID, an error, or `(nil, nil)` — "no such user, no error" (`.ok none`): what a pseudo-ID
+homeserver's querier answers for a room key it does not know, and what the repository's own
+`NilUserIDForBadSenderTest` answers.  Of the ten call sites eight test `sender == nil` before the pointer is used
+(lean/VModel/PanicSites.md §7); `createEventAllowed` (`*sender`) and `aliasEventAllowed` (`sender.Domain()`) did not —
+a nil dereference.  Both now carry the same `if sender == nil { return errorf(…) }` guard: the `none` branch below.
+With the standard querier (`stdQuerier`) the two functions are `Ctx.createEventAllowed` / `Ctx.aliasEventAllowed`
+(`V.AuthRules.createEventAllowedQ_std`, `aliasEventAllowedQ_std`). -/
+
+abbrev Querier := Bytes → R (Option UserID)
+
+/-- the standard querier `spec.NewUserID(sender, true)`: never `(nil, nil)` -/
+def stdQuerier : Querier := fun s =>
+  match resolveUser s with
+  | .ok u => .ok (some u)
+  | .error v => .error v
+
+/-- the standard querier, except that a sender that is not a user ID gets `(nil, nil)` instead of an error -/
+def nilQuerier : Querier := fun s =>
+  match resolveUser s with
+  | .ok u => .ok (some u)
+  | .error .err => .ok none
+  | .error v => .error v
+
+/-- `createEventAllowed` with the context's querier `q` -/
+def Ctx.createEventAllowedQ (q : Querier) (_a : Ctx) (e : Event) : R Unit := do
+  if !e.stateKeyEquals [] then notAllowed
+  if e.prevEventIDs.length > 0 then notAllowed
+  match ← q e.sender with
+  | none => notAllowed                   -- `if sender == nil { return errorf(…) }`  (before the fix: `*sender`, nil dereference)
+  | some sender => checkCreateEvent e sender
+
 /-- `aliasEventAllowed` -/
 def Ctx.aliasEventAllowed (a : Ctx) (e : Event) : R Unit := do
   let sender ← resolveUser e.sender
@@ -634,6 +667,18 @@ def Ctx.aliasEventAllowed (a : Ctx) (e : Event) : R Unit := do
     if !e.stateKeyEquals e.sender then notAllowed
   else
     if !e.stateKeyEquals sender.domain then notAllowed
+
+/-- `aliasEventAllowed` with the context's querier `q` -/
+def Ctx.aliasEventAllowedQ (q : Querier) (a : Ctx) (e : Event) : R Unit := do
+  match ← q e.sender with
+  | none => notAllowed                   -- `if sender == nil { return errorf(…) }`  (before the fix: `sender.Domain()` on nil)
+  | some sender =>
+    if e.roomID != a.create.roomID then notAllowed
+    a.create.domainAllowed sender.domain
+    if e.ver == b!"org.matrix.msc4014" then
+      if !e.stateKeyEquals e.sender then notAllowed
+    else
+      if !e.stateKeyEquals sender.domain then notAllowed
 
 /-- `NewMemberContentFromAuthEvents` -/
 def memberFromProvider (p : Provider) (u : Bytes) : R MemberContent :=
